@@ -69,6 +69,10 @@ type Config struct {
 	// Answers: per MID the answer token the peer gives: + - = Y N L H R !0 A0 (either case).
 	Answers map[string]string `json:"answers,omitempty"`
 	EarlyFQ bool              `json:"early_fq,omitempty"`
+	// HastyFQ: when the Session's last turn was FF and the peer has just
+	// sent (or had refused) its last block, FQ follows immediately, out of
+	// turn, and the peer hangs up.
+	HastyFQ bool `json:"hasty_fq,omitempty"`
 	// Passwords: expected secure-login passwords per address (C16).
 	Passwords map[string]string `json:"passwords,omitempty"`
 	Mut       []Mutation        `json:"mut,omitempty"`
@@ -99,6 +103,7 @@ type Range struct{ Start, End int }
 type Result struct {
 	Findings       []Finding
 	Received       map[string][]byte // MID -> decompressed message taken from the Session
+	Tails          map[string]Tail   // MID -> what a transfer resumed at an offset > 0 carried (Received holds an empty entry)
 	RecvOrder      []string
 	Proposed       [][]string        // blocks of MIDs the Session proposed
 	Answered       map[string]string // our answers to the Session's proposals
@@ -112,10 +117,17 @@ type Result struct {
 	PR             string
 	FWLine         string
 	Completed      bool // FQ exchanged
+	Hasty          bool // ... by the peer, out of turn, right behind its last block
 	RemoteErr      string
 	Stopped        string // why the peer stopped early
 	Waiting        string // what the peer was waiting for when it last blocked (handshake, fs, turn, transfer:<answer token>)
 	Wrote          int
+}
+
+// Tail is the data of a transfer that was requested from an offset.
+type Tail struct {
+	Off  int
+	Data []byte
 }
 
 type peer struct {
@@ -695,6 +707,12 @@ func (p *peer) myTurn(remoteNoMsgs bool) (quit, sentBlock bool, err error) {
 			}
 		}
 	}
+	if p.cfg.HastyFQ && remoteNoMsgs && len(p.pending()) == 0 {
+		// CMS style: the Session said it has nothing, this was our last block:
+		// FQ follows at once and the link is dropped without waiting for its FF
+		p.res.Hasty = true
+		return true, true, p.line("fq", "FQ")
+	}
 	return false, true, nil
 }
 
@@ -908,6 +926,22 @@ func (p *peer) answerBlock(fline string, props []prop) (quit, noMsgs bool, err e
 			tok = "=" // duplicate inside the block
 		}
 		seen[pr.mid] = true
+		// "!p37" / "Ap37": accept from 37 % of the announced compressed size
+		// (a resume request; the plan cannot know the size)
+		if len(tok) > 2 && (tok[0] == '!' || tok[0] == 'A' || tok[0] == 'a') && tok[1] == 'p' {
+			pct, _ := strconv.Atoi(tok[2:])
+			off := 0
+			if pr.csize >= 2 && pct >= 0 {
+				off = pr.csize * (pct % 100) / 100
+				if off < 1 {
+					off = 1
+				}
+				if off > pr.csize-1 {
+					off = pr.csize - 1
+				}
+			}
+			tok = tok[:1] + strconv.Itoa(off)
+		}
 		ts, perr := ParseAnswers(tok)
 		if perr != nil || len(ts) != 1 {
 			tok, ts = "+", []AnswerTok{{Kind: '+', Raw: "+"}}
@@ -1005,6 +1039,23 @@ func (p *peer) recvTransfer(pr prop, wantOff int) error {
 	}
 	if off, _ := strconv.Atoi(t.Offset); off != wantOff {
 		p.find("frame", "offset", "transfer of %s: offset field %q, requested %d", pr.mid, t.Offset, wantOff)
+	}
+	if wantOff > 0 {
+		// a resumed transfer carries the compressed image from the offset on;
+		// it cannot be decoded on its own and is kept as it is
+		if len(t.Data) != pr.csize-wantOff {
+			p.find("frame", "compressed-size", "transfer of %s from offset %d: %d data bytes, proposal said %d in all", pr.mid, wantOff, len(t.Data), pr.csize)
+		}
+		if _, dup := p.res.Received[pr.mid]; dup {
+			p.find("turn", "sent-twice", "message %s transferred twice", pr.mid)
+		}
+		if p.res.Tails == nil {
+			p.res.Tails = map[string]Tail{}
+		}
+		p.res.Tails[pr.mid] = Tail{Off: wantOff, Data: append([]byte(nil), t.Data...)}
+		p.res.Received[pr.mid] = []byte{}
+		p.res.RecvOrder = append(p.res.RecvOrder, pr.mid)
+		return nil
 	}
 	if len(t.Data) != pr.csize {
 		p.find("frame", "compressed-size", "transfer of %s: %d data bytes, proposal said %d", pr.mid, len(t.Data), pr.csize)
